@@ -93,6 +93,141 @@ Section First.
     change (mt U (Rep 0 (Some 1) a) pos s cs) with (rep (mt U a) (S (length s)) 0 (Some 1) pos s cs).
     cbn [rep]. rewrite H. reflexivity.
   Qed.
+
+  (** all candidates of a greedy run of a class, longest first *)
+  Fixpoint cands (run : str) (mn pos : nat) (rest : str) (cs : caps) : res :=
+    match run with
+    | [] => match mn with O => [(cs, pos, rest)] | _ => [] end
+    | c :: run' => cands run' (pred mn) (S pos) rest cs ++ match mn with O => [(cs, pos, c :: run' ++ rest)] | _ => [] end
+    end.
+
+  Lemma rep_class_all_gen k (body : nat -> str -> caps -> res) :
+    (forall pos c t cs, body pos (c :: t) cs = if cin U k c then [(cs, S pos, t)] else []) ->
+    (forall pos cs, body pos [] cs = []) ->
+    forall run n mn pos rest cs,
+    Forall (fun c => cin U k c = true) run -> stops k rest -> length run < n ->
+    rep body n mn None pos (run ++ rest) cs = cands run mn pos rest cs.
+  Proof.
+    intros Hb1 Hb2. induction run as [|c run IH]; intros n mn pos rest cs Hall Hstop Hn.
+    - destruct n as [|n]; [simpl in Hn; lia|]. cbn [rep app cands].
+      destruct rest as [|c t]; [rewrite Hb2|simpl in Hstop; rewrite Hb1, Hstop]; destruct mn; reflexivity.
+    - destruct n as [|n]; [simpl in Hn; lia|]. inversion Hall as [|? ? Hc Hall']; subst.
+      cbn [rep app cands]. rewrite Hb1, Hc. cbn [flat_map].
+      assert (L : Nat.ltb pos (S pos) = true) by (apply Nat.ltb_lt; lia). rewrite L, app_nil_r. cbn [option_map].
+      rewrite IH by (try assumption; simpl in Hn; lia). destruct mn; rewrite ?app_nil_r; reflexivity.
+  Qed.
+
+  Lemma mt_rep_class_all k mn run rest pos cs :
+    Forall (fun c => cin U k c = true) run -> stops k rest ->
+    mt U (Rep mn None (Chr k)) pos (run ++ rest) cs = cands run mn pos rest cs.
+  Proof.
+    intros.
+    change (mt U (Rep mn None (Chr k)) pos (run ++ rest) cs)
+      with (rep (mt U (Chr k)) (S (length (run ++ rest))) mn None pos (run ++ rest) cs).
+    apply (rep_class_all_gen k); try assumption; try (intros; reflexivity). rewrite app_length. lia.
+  Qed.
+
+  (* every candidate is a prefix of the run, at least mn long *)
+  Lemma cands_in : forall run mn pos rest cs x,
+    In x (cands run mn pos rest cs) -> exists j, mn <= j <= length run /\ x = (cs, pos + j, skipn j run ++ rest).
+  Proof.
+    induction run as [|c run IH]; intros mn pos rest cs x H.
+    - simpl in H. destruct mn; [|destruct H]. destruct H as [H|[]]. exists 0. subst. rewrite Nat.add_0_r. simpl. split; [lia|reflexivity].
+    - cbn [cands] in H. apply in_app_or in H. destruct H as [H|H].
+      + destruct (IH _ _ _ _ _ H) as [j [Hj Hx]]. exists (S j). simpl. split; [lia|]. subst. f_equal. f_equal. lia.
+      + destruct mn; [|destruct H]. destruct H as [H|[]]. exists 0. subst. rewrite Nat.add_0_r. simpl. split; [lia|reflexivity].
+  Qed.
+
+  (* the longest candidate comes first; with a known last character the next one is the run without it *)
+  Lemma cands_snoc : forall r c mn pos rest cs, mn <= S (length r) ->
+    cands (r ++ [c]) mn pos rest cs = (cs, pos + S (length r), rest) :: cands r mn pos (c :: rest) cs.
+  Proof.
+    induction r as [|a r IH]; intros c mn pos rest cs Hmn.
+    - simpl. destruct mn as [|[|mn]]; simpl; try (rewrite Nat.add_1_r; reflexivity). simpl in Hmn. lia.
+    - cbn [app cands length]. rewrite IH by (simpl in Hmn; lia). cbn [app].
+      replace (S pos + S (length r)) with (pos + S (S (length r))) by lia. rewrite <- app_assoc. reflexivity.
+  Qed.
+
+  Lemma cands_hd : forall run mn pos rest cs, mn <= length run ->
+    hd_error (cands run mn pos rest cs) = Some (cs, pos + length run, rest).
+  Proof.
+    induction run as [|c run IH]; intros mn pos rest cs H.
+    - simpl in *. assert (mn = 0) by lia. subst. rewrite Nat.add_0_r. reflexivity.
+    - cbn [cands length]. specialize (IH (pred mn) (S pos) rest cs). 
+      destruct (cands run (pred mn) (S pos) rest cs) as [|y l] eqn:E.
+      + simpl in IH. assert (Init.Nat.pred mn <= length run) by (simpl in H; lia). specialize (IH H0). discriminate.
+      + assert (Hp : Init.Nat.pred mn <= length run) by (simpl in H; lia). specialize (IH Hp). simpl in IH. simpl. rewrite IH.
+        f_equal. f_equal. f_equal. lia.
+  Qed.
+
+  Lemma cands_hd' run mn pos rest cs : mn <= length run ->
+    exists l, cands run mn pos rest cs = (cs, pos + length run, rest) :: l.
+  Proof.
+    intro H. assert (X := cands_hd run mn pos rest cs H). destruct (cands run mn pos rest cs) as [|y l]; [discriminate X|].
+    simpl in X. injection X as X. subst y. exists l. reflexivity.
+  Qed.
+
+  (** shape of the results of a (possibly unbounded) repetition of a single character class *)
+  Lemma rep_chr_shape k : forall n mn mx pos s cs x,
+    In x (rep (mt U (Chr k)) n mn mx pos s cs) -> exists j, j <= length s /\ x = (cs, pos + j, skipn j s).
+  Proof.
+    induction n as [|n IH]; intros mn mx pos s cs x H.
+    - simpl in H. destruct mn; [|destruct H]. destruct H as [H|[]]. exists 0. subst. rewrite Nat.add_0_r. split; [lia|reflexivity].
+    - cbn [rep] in H.
+      assert (M : In x (match mx with
+                        | Some 0 => []
+                        | _ => flat_map (fun '(c1, p1, s1) => if Nat.ltb pos p1 then rep (mt U (Chr k)) n (Init.Nat.pred mn) (option_map Init.Nat.pred mx) p1 s1 c1 else [])
+                                        (mt U (Chr k) pos s cs)
+                        end) \/ x = (cs, pos, s)).
+      { destruct mn; [apply in_app_or in H; destruct H as [H|[H|[]]]; [left; exact H | right; symmetry; exact H] | left; exact H]. }
+      destruct M as [M|M].
+      + assert (M2 : In x (flat_map (fun '(c1, p1, s1) => if Nat.ltb pos p1 then rep (mt U (Chr k)) n (Init.Nat.pred mn) (option_map Init.Nat.pred mx) p1 s1 c1 else [])
+                                   (mt U (Chr k) pos s cs))) by (destruct mx as [[|m]|]; [destruct M | exact M | exact M]).
+        apply in_flat_map in M2. destruct M2 as [[[c1 p1] s1] [Y1 Y2]].
+        simpl in Y1. destruct s as [|c t]; [destruct Y1|]. destruct (cin U k c); [|destruct Y1]. destruct Y1 as [Y1|[]]. inversion Y1; subst.
+        destruct (Nat.ltb pos (S pos)); [|destruct Y2].
+        destruct (IH _ _ _ _ _ _ Y2) as [j [Hj Hx]]. exists (S j). simpl. split; [lia|]. subst. f_equal. f_equal. lia.
+      + exists 0. subst. rewrite Nat.add_0_r. split; [lia|reflexivity].
+  Qed.
+
+  (** sequences *)
+  Lemma mt_seq a b pos s cs : mt U (Seq a b) pos s cs = flat_map (fun '(c1, p1, s1) => mt U b p1 s1 c1) (mt U a pos s cs).
+  Proof. reflexivity. Qed.
+
+  Lemma flat_map_all_nil {A B} (f : A -> list B) l : (forall x, In x l -> f x = []) -> flat_map f l = [].
+  Proof.
+    induction l as [|x l IH]; intro H; [reflexivity|]. simpl. rewrite (H x (or_introl eq_refl)). apply IH. intros. apply H. right. assumption.
+  Qed.
+
+  (* an optional part none of whose matches can be continued: the best match skips it *)
+  Lemma mt_opt a pos s cs :
+    exists l, mt U (Rep 0 (Some 1) a) pos s cs = l ++ [(cs, pos, s)] /\ (forall x, In x l -> In x (mt U a pos s cs)).
+  Proof.
+    change (mt U (Rep 0 (Some 1) a) pos s cs) with (rep (mt U a) (S (length s)) 0 (Some 1) pos s cs).
+    cbn [rep]. eexists. split; [reflexivity|]. intros x H. apply in_flat_map in H. destruct H as [[[c1 p1] s1] [H1 H2]].
+    destruct (Nat.ltb pos p1); [|destruct H2]. cbn [option_map pred] in H2.
+    destruct (length s); simpl in H2; destruct H2 as [H2|[]]; subst; exact H1.
+  Qed.
+
+  Lemma first_seq_opt_skip a k pos s cs :
+    (forall c1 p1 s1, In (c1, p1, s1) (mt U a pos s cs) -> mt U k p1 s1 c1 = []) ->
+    first (Seq (Rep 0 (Some 1) a) k) pos s cs = first k pos s cs.
+  Proof.
+    intro H. unfold first. rewrite mt_seq. destruct (mt_opt a pos s cs) as [l [E Hl]]. rewrite E, flat_map_app.
+    rewrite (flat_map_all_nil _ l); [simpl; rewrite app_nil_r; reflexivity|].
+    intros [[c1 p1] s1] Hin. apply H. apply Hl. exact Hin.
+  Qed.
+
+  (* when the first candidate of a cannot be continued, the second one is tried *)
+  Lemma first_seq_second a b pos s cs x1 x2 l y :
+    mt U a pos s cs = x1 :: x2 :: l ->
+    (let '(c1, p1, s1) := x1 in mt U b p1 s1 c1) = [] ->
+    (let '(c2, p2, s2) := x2 in first b p2 s2 c2) = Some y ->
+    first (Seq a b) pos s cs = Some y.
+  Proof.
+    intros E H1 H2. unfold first in *. rewrite mt_seq, E. cbn [flat_map]. destruct x1 as [[c1 p1] s1]. rewrite H1. simpl.
+    destruct x2 as [[c2 p2] s2]. destruct (mt U b p2 s2 c2); [discriminate|]. simpl in *. exact H2.
+  Qed.
 End First.
 
 (** substrings of concatenations *)
